@@ -104,4 +104,33 @@ theorem while_unfolds (fns : List FnDef) (c : Expr) (b : Block) :
         exact ⟨t1 :: cs, t3 :: bs, .step hc hb hrun, by simp [hlen], by simp [weave]⟩
     | _ => simp [R.stuck] at h2
 
+/-! ### how a `for` loop unfolds -/
+
+/-- `ForRun fns x b env xs bs env'`: the loop `for x in … { b }` over the elements `xs`,
+    started in `env`, runs the body once per element, in order, with the call traces `bs`. -/
+inductive ForRun (fns : List FnDef) (x : Nat) (b : Block) : Env → List Int → List Trace → Env → Prop
+  | done {env} : ForRun fns x b env [] [] env
+  | step {env env1 env' v vs tb k bv bs} :
+      evalBlock fns k ((x, .int v) :: env) b = ⟨tb, .ok (env1, bv)⟩ →
+      ForRun fns x b (leave env env1) vs bs env' → ForRun fns x b env (v :: vs) (tb :: bs) env'
+
+theorem for_unfolds (fns : List FnDef) (x : Nat) (b : Block) :
+    ∀ (n : Nat) (env env' : Env) (xs : List Int) (t : Trace) (v : Val),
+      evalFor fns n env x xs b = ⟨t, .ok (env', v)⟩ →
+      ∃ bs, ForRun fns x b env xs bs env' ∧ bs.length = xs.length ∧ t = bs.flatten
+  | 0, _, _, _, _, _, h => by simp [evalFor, R.fuel] at h
+  | n + 1, env, env', [], t, v, h => by
+    simp [evalFor, R.ok] at h
+    obtain ⟨rfl, rfl, rfl⟩ := h
+    exact ⟨[], .done, rfl, rfl⟩
+  | n + 1, env, env', w :: ws, t, v, h => by
+    simp only [evalFor] at h
+    cases hx : lookup env x with
+    | some _ => simp [hx, R.stuck] at h
+    | none =>
+      simp only [hx, bind_eq, R.bind_ok_iff] at h
+      obtain ⟨t1, ⟨env1, bv⟩, t2, hb, hrest, rfl⟩ := h
+      obtain ⟨bs, hrun, hlen, rfl⟩ := for_unfolds fns x b n (leave env env1) env' ws t2 v hrest
+      exact ⟨t1 :: bs, .step hb hrun, by simp [hlen], by simp⟩
+
 end RotoV.TraceSpec
